@@ -98,6 +98,10 @@ def cases(tier, rng):
     for instr in (None, 0, 1, 42, 127):
         for name in ("", "Untitled", "a longer name 0123456789", "x" * 130, "Strings (pad) ", " lead", "x\x00", "tab\t", "  ", "a  b "):
             out.append(RT([simple_track(instr=instr, name=name), simple_track(instr=None, name=name + "2", entries=[[1, None]])], tag="roundtrip:instrument+name"))
+    # a container that carries a tempo (the SAME as the current one, and another) right after a rest: the rest comes back
+    for tb in (120,):          # (with another tempo the reader reports the LAST tempo of the file: not what the statement speaks about)
+        ents = [[4, [["C", 4, 1, 64]]], [4, None], [4, [["E", 4, 1, 64]], tb], [4, None]]
+        out.append(RT([["tempo", None, [["C", 4, 4, ents], ["C", 4, 4, [[2, None], [2, [["G", 4, 1, 64]], tb]]]]]], tag="roundtrip:tempo-after-rest"))
     out.append(RT([], tag="roundtrip:empty"))
     out.append(RT([["only", None, []]], tag="roundtrip:empty"))
     out.append(RT([["only", 5, [["C", 4, 4, []]]]], tag="roundtrip:empty"))
